@@ -26,16 +26,23 @@ type wireCase struct {
 	Methods []int  `json:"enabled_methods"`
 	User    string `json:"user"`
 	Pass    string `json:"pass"`
+	// HeaderFirst: the application looks at the request before it asks the library (no Authorization header ->
+	// 401 + ErrServerAuth without calling VerifyCredentials), as an application with its own pre-checks does
+	HeaderFirst bool `json:"app_checks_header_first,omitempty"`
 }
 
 type authApp struct {
 	*sysx.Core
-	stream *gortsplib.ServerStream
-	user   string
-	pass   string
+	stream      *gortsplib.ServerStream
+	user        string
+	pass        string
+	headerFirst bool
 }
 
 func (a *authApp) OnDescribe(ctx *gortsplib.ServerHandlerOnDescribeCtx) (*base.Response, *gortsplib.ServerStream, error) {
+	if a.headerFirst && len(ctx.Request.Header["Authorization"]) == 0 {
+		return &base.Response{StatusCode: base.StatusUnauthorized}, nil, liberrors.ErrServerAuth{}
+	}
 	if !ctx.Conn.VerifyCredentials(ctx.Request, a.user, a.pass) {
 		return &base.Response{StatusCode: base.StatusUnauthorized}, nil, liberrors.ErrServerAuth{}
 	}
@@ -54,7 +61,7 @@ func runWire(c wireCase) (f *wfail) {
 		}
 	}()
 	env := sysx.NewEnv()
-	app := &authApp{Core: &sysx.Core{L: env.Log}, user: c.User, pass: c.Pass}
+	app := &authApp{Core: &sysx.Core{L: env.Log}, user: c.User, pass: c.Pass, headerFirst: c.HeaderFirst}
 	var ms []auth.VerifyMethod
 	for _, m := range c.Methods {
 		ms = append(ms, auth.VerifyMethod(m))
@@ -72,6 +79,9 @@ func runWire(c wireCase) (f *wfail) {
 	app.stream = st
 	u := sysx.MustURL("rtsp://127.0.0.1:8554/stream")
 	tag := fmt.Sprintf("wire/methods=%v", c.Methods)
+	if c.HeaderFirst {
+		tag += "/app-checks-header-first"
+	}
 	class := passClass(c.Pass)
 
 	// 1. no credentials: 401 + WWW-Authenticate, connection kept
@@ -218,7 +228,7 @@ func wireLevel(run *evid.Run) {
 	for _, s := range subsets {
 		for _, u := range us {
 			for _, p := range ps {
-				cases = append(cases, wireCase{s, u, p})
+				cases = append(cases, wireCase{Methods: s, User: u, Pass: p}, wireCase{Methods: s, User: u, Pass: p, HeaderFirst: true})
 			}
 		}
 	}
